@@ -181,8 +181,11 @@ class A(P.Rule):
 
 
 trace = []
-for name, op, body in sc["defs"]:
+for _k, (name, op, body) in enumerate(sc["defs"]):
     text = f"{name} {op} {body}"
+    if _k % 2 == 0:
+        A.get(name)            # a non-creating look-up before the definition (must not make the two one object)
+        A.get(name.swapcase())
     try:
         if sc.get("via") == "load":
             A.load_grammar(text + "\r\n")
